@@ -593,14 +593,15 @@ def correspond(ctx):
                 n_mismatch += 1
                 violation("model-mismatch:conv", "conv model differs on `%s`" % inp, {"case": inp, "implementation": o, "model": m}, failing=False, kind="correspondence")
 
+    pstats = probe_stream(ctx, mdriver, violation)
     return {
-        "evaluations": len(cases) + len(lit_in),
+        "evaluations": len(cases) + len(lit_in) + pstats["probes"],
         "distinct_nontrivial": len(nontrivial),
         "rule": "cases = designated witnesses + corpus + (19 binary + 2 unary operators) x 100 type pairs x boundary-lattice value pairs (corners always, rest sampled; shift counts -10..10, around 8/16/32/64/128/160/256 and the type limits) + dense 8-bit + random wide streams; each case is run through the compiler's fold functions (types.lua via its Lua API), through the compiled run-time driver, through the extracted model (fold and run-time) and the exact-integer oracle; literal emission and constant-conversion verdicts on every folded (type, value); non-trivial = operands not in {0,1}",
         "samples": [c[1:] for c in cases[:3]] + [c[1:] for c in cases[-3:]],
         "distribution": {"streams": dist, "per_op": per_op, "outcomes": kinds, "literal_cases": n_lit, "conversion_cases": n_conv,
                          "runtime_undefined_at_C_level": n_rt_undefined,
-                         "divergences_outside_the_quantifier": outside},
+                         "divergences_outside_the_quantifier": outside, "probe_programs": pstats},
         "oracle_failures": n_oracle,
         "oracle_failures_by_key": per_key,
         "model_mismatches": n_mismatch,
@@ -608,3 +609,290 @@ def correspond(ctx):
         "unproved": ["floating point folding (`/`, `^`, float operands): correspondence only, no theorem",
                      "analyzer.lua propagation of attr.value / comptime variables: end-to-end probes only"],
     }
+
+
+# --------------------------------------------------------------------------- end-to-end probe programs
+
+PROBE_HEADER = '''-- GENERATED by checks/C02.py: constant expression vs the same expression on operands hidden
+-- behind <noinline> functions (r), and the two half-constant forms (h1: right operand constant,
+-- h2: left operand constant).  One line per probe:
+--   P <k> <folded type> <folded value (attr.value)> | <type> <baked c> | <type> <r> | <type> <h1> | <type> <h2>
+local function printf(fmt: cstring, ...: cvarargs): cint <cimport,cinclude'<stdio.h>',nodecl> end
+local function outv(v: auto) <noinline>
+  ## if v.type.is_boolean then
+    local one: cint = 0
+    if v then one = 1 end
+    printf(" boolean %d", one)
+  ## elseif v.type.is_float then
+    printf(" %s %a", #[v.type.name]#, (@float64)(v))
+  ## elseif v.type.is_unsigned then
+    printf(" %s %llu", #[v.type.name]#, (@culonglong)(v))
+  ## else
+    printf(" %s %lld", #[v.type.name]#, (@clonglong)(v))
+  ## end
+end
+'''
+
+
+def lit(v):
+    if isinstance(v, float):
+        if v != v:
+            return "(0.0/0.0)"
+        if v in (float("inf"), float("-inf")):
+            return "(%s1.0/0.0)" % ("-" if v < 0 else "")
+        return "(%s)" % v.hex()
+    return "%d" % v
+
+
+FLOAT_OPS = ["add", "sub", "mul", "div", "idiv", "tdiv", "mod", "tmod", "pow", "lt", "le", "eq", "ne", "unm"]
+OPSYM.update({"div": "/", "pow": "^"})
+
+
+def float_candidates(rng, n):
+    import struct
+    f32 = lambda x: struct.unpack("<f", struct.pack("<f", x))[0]
+    vals64 = [0.0, -0.0, 1.0, -1.0, 0.5, -0.5, 1.5, -2.5, 3.0, 7.0, -7.0, 1e10, 2.0 ** 53, 2.0 ** 53 + 2, 2.0 ** 63, -2.0 ** 63, 1e300, 1e-300, 0.1, 1 / 3.0,
+              # integer-valued literals (kept as big integers by the analyzer)
+              1, -1, 2, 4, 10, 9223372036854775807, -9223372036854775807, 4611686018427387904, 3037000500]
+    vals32 = [f32(x) for x in [0.0, -0.0, 1.0, -1.0, 0.5, 1.5, -2.5, 3.0, 7.0, 1e10, 2.0 ** 24, 2.0 ** 24 + 2, 0.1, 1 / 3.0, 3e38]]
+    ints = {"int8": [-128, -1, 0, 1, 3, 127], "int32": [-2147483648, -7, 0, 2, 2147483647], "int64": [-9223372036854775808, -3, 0, 5, 9007199254740993, 9223372036854775807],
+            "uint8": [0, 1, 200, 255], "uint64": [0, 3, 18446744073709551615]}
+    # designated: an integer-valued float constant divided by an integer zero (the fold runs the
+    # Lua integer operator and the compiler dies with a traceback)
+    out = [("idiv", "float64", "uint8", 4, 0), ("add", "float64", "float64", 9223372036854775807, 1), ("tdiv", "float64", "float64", -1.0, 2.0)]
+    types = ["float64", "float32"] + list(ints)
+    while len(out) < n:
+        op = rng.choice(FLOAT_OPS)
+        lt = rng.choice(types)
+        if op == "unm":
+            if lt.startswith("float"):
+                out.append((op, lt, None, rng.choice(vals64 if lt == "float64" else vals32), None))
+            continue
+        rt = rng.choice(types)
+        if not (lt.startswith("float") or rt.startswith("float") or op in ("div", "pow")):
+            continue
+        def draw(t):
+            return rng.choice(vals64 if t == "float64" else vals32 if t == "float32" else ints[t])
+        a, b = draw(lt), draw(rt)
+        if op in ("idiv", "tdiv", "mod", "tmod", "div") and b == 0 and not (lt.startswith("float") or rt.startswith("float")):
+            continue
+        out.append((op, lt, rt, a, b))
+    return out
+
+
+def probe_text(k, op, lt, rt, a, b):
+    sym = OPSYM[op]
+    if isinstance(a, float) or isinstance(b, float) or op in ("div", "pow"):
+        A = "local A: %s <comptime> = %s\n" % (lt, lit(a))
+        if rt is None:
+            return ("do\n  %s  local c <comptime> = %s(A)\n  printf(\"P %d %%s %%s |\", #[c.type.name]#, #[tostring(c.value)]#)\n  outv(c) printf(\" |\")\n"
+                    "  local r = %s(id_%s(A))\n  outv(r) printf(\" | - - | - -\\n\")\nend\n") % (A, sym, k, sym, lt)
+        B = "local B: %s <comptime> = %s\n" % (rt, lit(b))
+        return ("do\n  %s  %s  local c <comptime> = A %s B\n  printf(\"P %d %%s %%s |\", #[c.type.name]#, #[tostring(c.value)]#)\n  outv(c) printf(\" |\")\n"
+                "  local r = id_%s(A) %s id_%s(B)\n  outv(r) printf(\" |\")\n  local h1 = id_%s(A) %s B\n  outv(h1) printf(\" |\")\n"
+                "  local h2 = A %s id_%s(B)\n  outv(h2) printf(\"\\n\")\nend\n") % (A, B, sym, k, lt, sym, rt, lt, sym, sym, rt)
+    if rt is None:
+        return ("do\n  local A: %s <comptime> = %d\n  local c <comptime> = %s(A)\n"
+                "  printf(\"P %d %%s %%s |\", #[c.type.name]#, #[tostring(c.value)]#)\n  outv(c) printf(\" |\")\n"
+                "  local r = %s(id_%s(A))\n  outv(r) printf(\" | - - | - -\\n\")\nend\n") % (lt, a, sym, k, sym, lt)
+    return ("do\n  local A: %s <comptime> = %d\n  local B: %s <comptime> = %d\n  local c <comptime> = A %s B\n"
+            "  printf(\"P %d %%s %%s |\", #[c.type.name]#, #[tostring(c.value)]#)\n  outv(c) printf(\" |\")\n"
+            "  local r = id_%s(A) %s id_%s(B)\n  outv(r) printf(\" |\")\n"
+            "  local h1 = id_%s(A) %s B\n  outv(h1) printf(\" |\")\n"
+            "  local h2 = A %s id_%s(B)\n  outv(h2) printf(\"\\n\")\nend\n") % (lt, a, rt, b, sym, k, lt, sym, rt, lt, sym, sym, rt)
+
+
+def probe_program(probes):
+    ids = "".join("local function id_%s(x: %s): %s <noinline> return x end\n" % (t, t, t) for t in ITYPES + ["float32", "float64"])
+    return PROBE_HEADER + ids + "".join(probe_text(k, *p) for k, p in enumerate(probes))
+
+
+def analyze_ok(src_text, path):
+    vlib.write_if_changed(path, src_text)
+    rc, out, err = vlib.nelua(["--analyze", path], timeout=300)
+    return rc == 0, (out + err)
+
+
+def bisect_rejected(probes, workdir, limit=6):
+    """indices of probes the analyzer rejects (recursive halving with --analyze)."""
+    found = []
+
+    def rec(idx):
+        if len(found) >= limit or not idx:
+            return
+        ok, _ = analyze_ok(probe_program([probes[i] for i in idx]), os.path.join(workdir, "bisect.nelua"))
+        if ok:
+            return
+        if len(idx) == 1:
+            found.append(idx[0])
+            return
+        h = len(idx) // 2
+        rec(idx[:h])
+        rec(idx[h:])
+
+    rec(list(range(len(probes))))
+    return found
+
+
+def probe_stream(ctx, mdriver, violation):
+    """Generate, compile (real compiler) and run probe programs; compare with fold/rt model and oracle."""
+    rng = ctx.rng
+    nprog = ctx.scale(3, 24)
+    per = 400
+    cand = []
+    # candidates: lattice values for every op and type pair (sampled), never crashing at run time
+    ops = [o for o in BINOPS]
+    while len(cand) < nprog * per * 3:
+        op = rng.choice(ops + UNOPS)
+        lt = rng.choice(ITYPES)
+        if op in UNOPS:
+            cand.append((op, lt, None, rng.choice(lattice(lt)), None))
+            continue
+        rt = rng.choice(ITYPES)
+        a = rng.choice(lattice(lt))
+        b = rng.choice(counts(rt) if op in SHIFTOPS else lattice(rt))
+        if op in DIVOPS and b == 0:
+            continue
+        if op in ("tdiv", "tmod") and b == -1:
+            continue          # INT_MIN /// -1 traps at run time for 32/64-bit operands
+        cand.append((op, lt, rt, a, b))
+    # ask the model which constants can be printed (folded value inside its own type)
+    m_in = [("fold %s %s %s %s %s 0 0" % (op, tb(lt), tb(rt), hx(a), hx(b))) if rt else ("foldun %s %s %s" % (op, tb(lt), hx(a)))
+            for (op, lt, rt, a, b) in cand]
+    m_out = run_parallel([mdriver], m_in, 2)
+    probes, expect_reject = [], []
+    for c, mo in zip(cand, m_out):
+        w = mo.split()
+        if w[0] == "T":
+            bits, sg, v = int(w[1]), w[2] == "1", unhx(w[3])
+            lo, hi = (-(1 << (bits - 1)), (1 << (bits - 1)) - 1) if sg else (0, (1 << bits) - 1)
+            if lo <= v <= hi:
+                probes.append((c, mo))
+            else:
+                expect_reject.append(c)
+        elif w[0] == "B":
+            probes.append((c, mo))
+    probes = probes[:nprog * per]
+    nfloat = ctx.scale(300, 2400)
+    fl = [(c, "F") for c in float_candidates(rng, nfloat)]
+    probes += fl
+    nprog = (len(probes) + per - 1) // per
+    work = os.path.join(ctx.work, "probes")
+    os.makedirs(work, exist_ok=True)
+    stats = {"programs": 0, "probes": 0, "unexpected_rejections": 0, "half_constant_divergences": {}, "expected_rejections_confirmed": 0}
+
+    def run_program(ix):
+        chunk = probes[ix * per:(ix + 1) * per]
+        if not chunk:
+            return None
+        src = os.path.join(work, "probe%d.nelua" % ix)
+        exe = os.path.join(work, "probe%d" % ix)
+        vlib.write_if_changed(src, probe_program([c for c, _ in chunk]))
+        rc, out, err = vlib.nelua_build(src, exe, cache_dir=os.path.join(work, "cache%d_%d" % (ix, ctx.seed)), extra=["--no-cache"])
+        if rc != 0:
+            return (chunk, None, out + err)
+        rc, out, err = vlib.sh(["bash", "-c", "ulimit -c 0; exec '%s'" % exe], timeout=120)
+        return (chunk, out, err if rc != 0 else "")
+
+    results = [None] * nprog
+    ths = []
+    sem = threading.Semaphore(4)
+
+    def worker(ix):
+        with sem:
+            results[ix] = run_program(ix)
+
+    for ix in range(nprog):
+        t = threading.Thread(target=worker, args=(ix,))
+        t.start()
+        ths.append(t)
+    for t in ths:
+        t.join()
+    for ix, res in enumerate(results):
+        if res is None:
+            continue
+        chunk, out, err = res
+        stats["programs"] += 1
+        if out is None:
+            bad = bisect_rejected([c for c, _ in chunk], work)
+            stats["unexpected_rejections"] += len(bad)
+            if not bad:
+                violation("probe-program-does-not-compile", "probe program %d is rejected as a whole but no single probe is: %s" % (ix, err[-400:]),
+                          {"stderr": err[-2000:]}, failing=False, kind="harness")
+            for bi in bad:
+                op, lt, rt, a, b = chunk[bi][0]
+                text = "%s %s %s %d %d" % (op, lt, rt, a, b) if rt else "%s %s %d" % (op, lt, a)
+                ok, msg = analyze_ok(probe_program([chunk[bi][0]]), os.path.join(work, "single.nelua"))
+                key = "probe-rejected:" + text
+                if "stack traceback" in msg and "types.lua" in msg and "divide by zero" in msg or "attempt to perform 'n%%0'" in msg:
+                    key = "float:fold-crashes-on-division-by-zero:" + op
+                violation(key, "C02 probe `%s` (constant expression, run-time form and half-constant forms) is rejected by the compiler although the model folds it to %s: %s" %
+                          (text, chunk[bi][1], re.sub(r"\s+", " ", msg)[-300:]),
+                          {"case": text, "model_fold": chunk[bi][1], "compiler_output": msg[-1500:], "replay": "nelua --analyze on the program printed by checks/C02.py:probe_program([%r])" % (chunk[bi][0],)})
+            continue
+        lines = {int(l.split()[1]): l for l in out.split("\n") if l.startswith("P ")}
+        if err or len(lines) != len(chunk):
+            violation("probe-program-crashed", "probe program %d printed %d of %d probes: %s" % (ix, len(lines), len(chunk), err[-300:]), {"stderr": err[-1500:]}, failing=False, kind="harness")
+        for k, (c, mo) in enumerate(chunk):
+            if k not in lines:
+                continue
+            stats["probes"] += 1
+            op, lt, rt, a, b = c
+            text = "%s %s %s %s %s" % (op, lt, rt, lit(a), lit(b)) if rt else "%s %s %s" % (op, lt, lit(a))
+            parts = [p.split() for p in lines[k].split("|")]
+            if mo == "F":
+                stats["float_probes"] = stats.get("float_probes", 0) + 1
+                bk, r, h1, h2 = parts[1], parts[2], parts[3], parts[4]
+                canon = lambda x: [x[0], "nan" if "nan" in x[1] else x[1]]
+                for name, x in (("constant", bk), ("right-operand-constant", h1), ("left-operand-constant", h2)):
+                    if x[0] == "-":
+                        continue
+                    if canon(x) != canon(r):
+                        cls = "float:%s:%s" % (name, op)
+                        stats["float_divergences"] = stats.get("float_divergences", {})
+                        stats["float_divergences"][cls] = stats["float_divergences"].get(cls, 0) + 1
+                        violation(cls, "C02 (floats, correspondence only) `%s`: %s form gives %s %s, all-run-time form gives %s %s (folded attr.value %s %s)" %
+                                  (text, name, x[0], x[1], r[0], r[1], parts[0][2], parts[0][3]),
+                                  {"case": text, "line": lines[k], "replay": "compile and run checks/C02.py:probe_program([%r])" % (c,)})
+                continue
+            ctype, craw = parts[0][2], parts[0][3]
+            baked, r, h1, h2 = parts[1], parts[2], parts[3], parts[4]
+            # (1) the compiler pipeline folds exactly as the API-level fold predicted by the model
+            if mo.startswith("T "):
+                w = mo.split()
+                if TYPES.get(ctype) != (int(w[1]), w[2] == "1") or int(craw) != unhx(w[3]):
+                    violation("model-mismatch:probe-fold", "end-to-end fold of `%s` is (%s, %s), model says %s" % (text, ctype, craw, mo),
+                              {"case": text, "line": lines[k], "model": mo}, failing=False, kind="correspondence")
+                if baked[0] != ctype or int(baked[1]) != int(craw):
+                    violation("case:probe-baked:" + text, "C02 `%s`: the constant (%s, %s) is printed by the compiled program as (%s, %s)" % (text, ctype, craw, baked[0], baked[1]),
+                              {"case": text, "line": lines[k]})
+            elif mo.startswith("B "):
+                if ctype != "boolean" or (craw == "true") != (mo == "B 1"):
+                    violation("model-mismatch:probe-fold", "end-to-end fold of `%s` is (%s, %s), model says %s" % (text, ctype, craw, mo),
+                              {"case": text, "line": lines[k], "model": mo}, failing=False, kind="correspondence")
+            # (2) half-constant forms must compute what the all-run-time form computes
+            for name, h in (("right-operand-constant", h1), ("left-operand-constant", h2)):
+                if h[0] == "-":
+                    continue
+                if h != r:
+                    E = exact(op, lt, a, b)
+                    T = r[0]
+                    in_q = T in TYPES and inrange(T, a) and inrange(T, b)
+                    cls = "half-constant:%s:%s" % (name, op)
+                    stats["half_constant_divergences"][cls] = stats["half_constant_divergences"].get(cls, 0) + 1
+                    if in_q or T == "boolean":
+                        violation(cls, "C02 `%s` with the %s baked as a literal gives %s %s, with both operands at run time %s %s (exact %s)" %
+                                  (text, name.replace("-", " "), h[0], h[1], r[0], r[1], E),
+                                  {"case": text, "line": lines[k], "exact": str(E),
+                                   "replay": "compile and run the program printed by checks/C02.py:probe_program([%r])" % (c,)})
+    # (3) a few of the constants the model says lie outside their own type: typed use must be rejected
+    for c in expect_reject[:ctx.scale(4, 20)]:
+        op, lt, rt, a, b = c
+        text = "%s %s %s %d %d" % (op, lt, rt, a, b) if rt else "%s %s %d" % (op, lt, a)
+        ok, msg = analyze_ok(probe_program([c]), os.path.join(work, "reject.nelua"))
+        if ok:
+            violation("model-mismatch:probe-reject", "the model says the folded constant of `%s` lies outside its type (typed use rejected), the compiler accepts the probe" % text,
+                      {"case": text}, failing=False, kind="correspondence")
+        else:
+            stats["expected_rejections_confirmed"] += 1
+    return stats
